@@ -68,6 +68,9 @@ def tasks(tier, seed):
         out.append({"fn": "content", "kwargs": {"formats": fl, "bucket": "image"}, "label": "content/image/" + "+".join(fl)})
     for fl in (["fits", "npy"], ["npy", "txt", "fits"]):
         out.append({"fn": "content", "kwargs": {"formats": fl, "bucket": "pixel"}, "label": "content/pixel/" + "+".join(fl)})
+    grids = [["product", 3, 2, 1], ["product", 2, 2, 1], ["product", 2, 3, 0], ["sequential", 2, 2, 1]] + ([["product", 3, 3, 1], ["product", 1, 3, 1], ["sequential", 3, 2, 0]] if tier == "thorough" else [])
+    for g in grids:
+        out.append({"fn": "observation_outputs_witness", "kwargs": {"cases": [g]}, "label": f"witness/observation_outputs/{g[0]},{g[1]}x{g[2]},{'dask' if g[3] else 'seq'}", "kind": "direct"})
     for how in ("clusters", "array", "both"):
         out.append({"fn": "outputs_witness", "kwargs": {"cases": [[how, 1], [how, 2], [how, 2, "header"]] + ([[how, 4]] if tier == "thorough" else [])}, "label": f"witness/outputs/{how}", "kind": "direct"})
     return out
@@ -533,6 +536,98 @@ def _run_with_outputs(case):
         shutil.rmtree(tmp, ignore_errors=True)
 
 
+def _observation_outputs(mode, n1, n2, with_dask):
+    """Whole observation (product grid n1 x n2, or the two lists in sequential mode) with outputs configured: every run's reported
+    files hold that run's buckets, no file is reported for two runs, and exactly runs x files exist."""
+    import shutil
+    import warnings
+
+    import vxprobes
+
+    import pyxel
+    from pyxel.exposure import Readout
+    from pyxel.observation import Observation, ParameterValues
+    from pyxel.outputs import ObservationOutputs
+    from pyxel.pipelines import DetectionPipeline, ModelFunction
+
+    from .common import make_ccd
+
+    warnings.filterwarnings("ignore")
+
+    def hook(d, tag, kw, rec):
+        a, b = float(kw["a"]), float(kw["b"])
+        d.pixel.array = np.arange(6.0).reshape(2, 3) + 100.0 * a + 1000.0 * b
+        d.signal.array = np.full((2, 3), a + b / 16.0)
+        d.image.array = (np.arange(6).reshape(2, 3) + int(10 * a + b)).astype(np.uint16)
+        d.photon.array = np.full((2, 3), a)
+
+    tmp = tempfile.mkdtemp(prefix="vx_c19_")
+    vxprobes.reset(hook)
+    try:
+        out = ObservationOutputs(output_folder=tmp, save_data_to_file=[{"detector.pixel.array": ["npy"]}, {"detector.image.array": ["npy"]}])
+        pipe = DetectionPipeline(charge_generation=[ModelFunction(func="vxprobes.probe", name="gen", arguments={"tag": "gen", "a": 0.0, "b": 0.0})])
+        A, B = [float(i + 1) for i in range(n1)], [float(j + 1) for j in range(n2)]
+        obs = Observation(mode=mode, parameters=[ParameterValues(key="pipeline.charge_generation.gen.arguments.a", values=A),
+                                                 ParameterValues(key="pipeline.charge_generation.gen.arguments.b", values=B)],
+                          readout=Readout(times=[1.0]), outputs=out, with_dask=with_dask)
+        dt = pyxel.run_mode(mode=obs, detector=make_ccd(2, 3), pipeline=pipe)
+        if hasattr(dt, "load"):
+            dt = dt.load()
+        folder = pathlib.Path(out.current_output_folder)
+        on_disk = sorted(f.name for f in folder.iterdir() if f.suffix == ".npy")
+        runs = [(a, b) for a in A for b in B] if mode == "product" else [(a, 0.0) for a in A] + [(0.0, b) for b in B]
+        bad = {}
+        fmt_dims = ("extension", "data_format")
+        reported = {}
+        for bucket in ("pixel", "image"):
+            try:
+                fn = dt[f"/output/{bucket}"]["filename"]
+            except KeyError:
+                bad[f"no_report_for_{bucket}"] = sorted(dt.groups)
+                continue
+            run_dims = [d for d in fn.dims if d not in fmt_dims]
+            for idx in np.ndindex(*[fn.sizes[d] for d in run_dims]):
+                sel = fn.isel(dict(zip(run_dims, idx)))
+                a, b = float(sel.coords["a"]) if "a" in sel.coords else None, float(sel.coords["b"]) if "b" in sel.coords else None
+                for name in np.asarray(sel).ravel().tolist():
+                    name = pathlib.Path(str(name)).name
+                    if name in reported:
+                        bad.setdefault("reported_for_two_runs", []).append(name)
+                    reported[name] = (bucket, a, b)
+                    if not (folder / name).exists():
+                        bad.setdefault("reported_but_missing", []).append(name)
+                        continue
+                    if mode == "product" and a is not None and b is not None:
+                        back = np.load(folder / name)
+                        want = (np.arange(6.0).reshape(2, 3) + 100.0 * a + 1000.0 * b) if bucket == "pixel" else (np.arange(6).reshape(2, 3) + int(10 * a + b))
+                        if not np.array_equal(np.asarray(back, dtype=float), np.asarray(want, dtype=float)):
+                            bad.setdefault("file_holds_another_run", []).append({"file": name, "run": [a, b], "holds": np.asarray(back).ravel()[:3].tolist(), "expected": np.asarray(want).ravel()[:3].tolist()})
+        if len(reported) != 2 * len(runs):
+            bad["reported_files"] = {"count": len(reported), "expected": 2 * len(runs)}
+        # the files of the runs have pairwise different contents (every run writes its own values)
+        seen = {}
+        for name in reported:
+            if (folder / name).exists():
+                seen.setdefault((reported[name][0], np.load(folder / name).tobytes()), []).append(name)
+        dup = [v for v in seen.values() if len(v) > 1]
+        if dup:
+            bad["same_content_reported_for_several_runs"] = dup[:4]
+        return bad
+    finally:
+        vxprobes.reset(None)
+        shutil.rmtree(tmp, ignore_errors=True)
+
+
+def observation_outputs_witness(tier, seed, cases):
+    """Observation with outputs, sequential engine and the parallel (dask) engine: witness runs over grid shapes."""
+    obligations = []
+    for mode, n1, n2, dask in cases:
+        bad = _observation_outputs(mode, n1, n2, bool(dask))
+        obligations.append({"id": f"C19/witness/observation_files/{mode},{n1}x{n2},{'dask' if dask else 'sequential_engine'}", "verdict": "sat" if bad else "unsat",
+                            "info": {"differences": str(bad)[:600]}, "model": {"mode": mode, "n1": n1, "n2": n2, "dask": bool(dask)}, "observed": {}})
+    return {"obligations": obligations, "paths": len(cases), "reached": {o["id"]: 1 for o in obligations}}
+
+
 def outputs_witness(tier, seed, cases):
     """End-to-end witness runs (real writers, real files): the symbolic content obligations above stop at what is handed to the writers."""
     obligations = []
@@ -546,6 +641,9 @@ def outputs_witness(tier, seed, cases):
 
 def replay(oid, kwargs, model, data):
     """Real file system in a scratch directory."""
+    if data["fn"] == "observation_outputs_witness":
+        bad = _observation_outputs(model["mode"], int(model["n1"]), int(model["n2"]), bool(model["dask"]))
+        return bool(bad), {"differences": bad}
     if data["fn"] == "outputs_witness":
         bad = _run_with_outputs((model["how"], int(model["steps"]), model.get("header", "no_header")))
         return bool(bad), {"differences": bad}
